@@ -589,7 +589,7 @@ func TestPBFStop(t *testing.T) {
 			return map[string]any{"blocks": c.NBlocks, "templates": len(c.Templates), "procs": c.Procs, "header_first": c.HeaderFirst, "k": c.K,
 				"stop": []string{"close", "cancel-sync", "cancel-async", "none"}[c.Stop], "async_delay": c.AsyncDelay, "after_ops": c.After, "chunk": c.Chunk, "endless": c.Endless, "truncate_at": c.TruncateAt, "read_err": c.ReadErr, "headerless": c.Headerless}
 		},
-		Floors:   map[string]float64{"stop-mid-scan": 0.5, "cancel-async": 0.2, "promptness-bound-effective": 0.3},
+		Floors:   map[string]float64{"stop-mid-scan": 0.33, "cancel-async": 0.1, "promptness-bound-effective": 0.3},
 		Inflight: true,
 	})
 }
@@ -887,6 +887,6 @@ func TestXMLStop(t *testing.T) {
 		},
 		Check:    checkXML,
 		Classify: func(c XCase) (bool, []string) { return lastX.nontrivial, lastX.classes },
-		Floors:   map[string]float64{"stop-mid-scan": 0.25, "cancel-during-scan": 0.1},
+		Floors:   map[string]float64{"stop-mid-scan": 0.25, "cancel-during-scan": 0.06},
 	})
 }
